@@ -723,6 +723,14 @@ func (in *Interp) symIndex(base []value, t64 *Term, elemT types.Type) (int, *sym
 	if smallSup {
 		return 0, &symPtr{base: base, idx: t64, w: w}
 	}
+	if in.noFork == 0 {
+		for i := lo; i <= hi; i++ {
+			if _, isT := base[i].(*Term); isT {
+				c := in.concretize(t64, "index")
+				return int(c), nil
+			}
+		}
+	}
 	idx := t64
 	if lo > 0 {
 		idx = in.ts.Bin(OpSub, t64, in.ts.Const(64, lo))
